@@ -1,6 +1,6 @@
 ------------------------------ MODULE Conf_Speck ------------------------------
 EXTENDS Speck, Json, IOUtils
-VARIABLES l, inst
+VARIABLES tpos, inst
 Rec == ndJsonDeserialize(IOEnv.TRACE)
 OSched(t, k, x) == SpeckSched(t, k, x)
 OEnc(ks, b) == SpeckEnc(ks, b)
